@@ -156,3 +156,10 @@ package netflow5
 //@   loop 1
 //@     invariant b != nil && fLength == len(m.Flows) && err == nil
 //@     invariant b.js == jsset(pre(b.js), range_i == 0 ? 1 : (range_i < len(m.Flows) ? 0 : 5)) && pre(b.js).Dp == 2 && jstop(pre(b.js)) == 2 && jscanon(pre(b.js))
+
+// >>> field snapshots (govc -gen-names)
+//@ fields Decoder raddr reader
+//@ fields FlowRecord SrcAddr DstAddr NextHop Input Output PktCount L3Octets StartTime EndTime SrcPort DstPort Padding1 TCPFlags ProtType Tos SrcAsNum DstAsNum SrcMask DstMask Padding2
+//@ fields Message AgentID Header Flows
+//@ fields PacketHeader Version Count SysUpTimeMSecs UNIXSecs UNIXNSecs SeqNum EngType EngID SmpInt
+// <<< field snapshots
